@@ -19,29 +19,36 @@ RULE = ("stream lin: single Model::linearization(T*) calls on 1-3 points anywher
         "Greenwich}; n/e and u components fixed/free/constrained; vectors (single and multi-vector clusters, "
         "diagonal/banded/full covariances), xyz, distances, heights, height differences, angles; approximate "
         "coordinates displaced along the adjusted components; 15 % of the correspondence cases carry a gross error "
-        "(rejection loop).  non-trivial = at least one adjusted point with displaced approximate coordinates; "
-        "distinct by XML text")
+        "(rejection loop); every network is also adjusted in the harness with one of the four algorithms "
+        "(Model::update_adjustment + write_xml_adjustment_results_points: stream g3-result) and its dump is written with "
+        "precision(16) and (17), read back and written again.  non-trivial = at least one adjusted point with displaced "
+        "approximate coordinates; distinct by XML text")
 TRUSTED = [
     "the line harness harness/c19_g3.cpp reads private members of g3::Point / g3::Model via '#define private public'",
     "tools/gen/c19_g3net.py: independent WGS84 conversions, frames, Jacobian and rank used as the oracle's reference",
 ]
 MODELLED = [
     "the SAX state table of the g3 XML parser (dataparser_g3.cpp) apart from its pending -dh attributes, "
-    "Model::update_init, the result writer (g3_model_write_xml_adjustment_results.cpp, Point::write_xml) and "
-    "g3_adjres.cpp are exercised end-to-end only",
+    "Model::update_init, the text layout of the result writer (g3_model_write_xml_adjustment_results.cpp; its numbers - "
+    "corrections, adjusted XYZ, n-e-u / xyz covariance blocks, statistics, point order - are modelled in "
+    "Gama/Model/G3Net.lean and compared in the stream g3-result; B L H of the result go through xyz2blh, C18), the "
+    "adjusted-observation part of the result and g3_adjres.cpp are exercised end-to-end only",
     "the solvers behind class Adj are C01-C04's theorems; here Adj is only run (4 algorithms) on the dumped equations",
     "E_3 / R_3 primitives (e3.cpp), Point::diff_N.., X_dh, model_height, Parameter::index are hand-written Lean "
     "(Gama/Model/{Neu,G3Lin}.lean), pinned by a normalised-text comparison in the translator and by the `lin` stream",
-    "angle coefficients: generated and compared bit for bit, guards proved, right-hand side proved; that they are the "
-    "derivative of the angle between the vertical planes is checked numerically only (`lin` derivative oracle); "
-    "zenith: derivative proved for the station's coefficients in its own frame, the rotation to the target numerically; "
+    "angle coefficients: proved to be the derivative of the horizontal angle (difference of the direction angles in the "
+    "station's n-e plane, formed from the initial coordinates in the geodetic frame); that this angle equals the angle "
+    "between the vertical planes the right-hand side uses (instrument heights, deflection of the vertical) is checked "
+    "numerically only (`lin` derivative oracle); zenith: derivative proved for station and target; "
     "azimuth coefficients are not derivatives (cos/sin of the observed value, not divided by the distance) - azimuth "
     "input is refused by the parser (G2), so this code is unreachable from gama-g3",
     "Ellipsoid::xyz2blh (B, L, H of a point) is an input of the frame model (C18's subject)",
     "operator<< / istringstream>> of numbers: the round-trip theorem is stated for any printer with rd (fmt x) = q x, "
-    "fmt (q x) = fmt x (q = rounding to the printed digits; example: a three-decimal printer); that precision(16) / (17) "
-    "on doubles is such a printer is not proved (gama-g3 writes the dump with precision(16): observed relative "
-    "deviation <= 2e-16)",
+    "fmt (q x) = fmt x (q = rounding to the printed digits; example: a three-decimal printer), and derived from the "
+    "decomposition print = round to p digits + exact rendering, read = exact parsing + nearest double with "
+    "D(N(D x)) = D x (`DecimalStream`); that libstdc++'s precision(16) / (17) on doubles satisfies it is a stated "
+    "hypothesis, tested bit for bit on every number of every dump (`res adjrt` = exact for 17 digits, `res adjrt16` = "
+    "stable projection for 16 digits, relative change <= 5.2e-16)",
     "libm sin/cos/sqrt, IEEE rounding",
 ]
 ASSUMPTIONS = ["approximate coordinates within tol-abs (1 m) of the generating ones, second-order terms of distances / "
@@ -759,7 +766,7 @@ def correspond(ctx, corr):
                       {"stream": "g3-harness", "net": n, "xml": gen.to_xml(n, newline="\n")}, "DataParser/Model")
             continue
         RESULT = ("res stat ", "res pt ")
-        ires = [l for l in impl[i] if l.startswith("res ") and not l.startswith("res adjrt") and not l.startswith(RESULT)]
+        ires = [l for l in impl[i] if l.startswith("res ") and not l.startswith(("res adjrt", "res adjust-skipped") + RESULT)]
         iresult = [l for l in impl[i] if l.startswith(RESULT)]
         mresult = [l for l in model[i] if l.startswith(RESULT)]
         model[i] = [l for l in model[i] if not l.startswith(RESULT)]
@@ -943,16 +950,23 @@ LEVEL_TEXT = ("Lean 4 theorems about executable models of what is specific to ga
               "expressions, right-hand sides): a coefficient is emitted for exactly the adjusted unknowns of the "
               "observation's points, right-hand sides vanish at the generating coordinates for every type, the vector / "
               "xyz / distance / height rows are exact linear maps resp. derivatives, the station's zenith coefficients "
-              "are derivatives, one-step exactness for consistent vectors; the north-east-up frame (orthogonal, det -1); "
-              "the unknown-index bookkeeping (order independence up to a renumbering, redundancy identity); the "
+              "are derivatives, angle and zenith rows are derivatives along every displacement of their points, one-step "
+              "exactness for consistent vectors; the north-east-up frame (orthogonal, det -1); "
+              "the unknown-index bookkeeping (order independence up to a renumbering, redundancy identity); the network "
+              "level (update_linearization's loop over the active observations with the indices of update_index): two "
+              "orders of the same records give design matrices and right-hand sides related by explicit row / column "
+              "permutations, hence the same least-squares solutions, rank, corrections per parameter; the result side "
+              "(update_adjustment, Point::write_xml): reported X Y Z = initial + R (dn,de,du), and a consistent network "
+              "with positive definite weights and a resolving regularisation set is reported with its generating "
+              "coordinates by every IsLSSolution; the "
               "pending-attribute discipline of the g3 data parser read from the source (every observation depends on "
               "its own record only, parsing is independent of record order); the adj-input-data writer/reader round "
               "trip. Models tied to the C++ by translators and differential correspondence (single linearisations, "
               "parser records, frames, sparse rows, right-hand sides, cofactor blocks, indices, SAX events) and an "
               "end-to-end oracle on gama-g3 (4 algorithms, record orders, statistics, dump re-adjusted by class Adj).")
-LEVEL_NOTE = ("The least-squares solvers behind class Adj are not part of this check (C01-C04). The SAX state table of "
-              "the g3 parser, Model::update_init and the result writer are exercised end-to-end only. Angle "
-              "coefficients are derivatives only numerically; azimuth coefficients are not derivatives (unreachable "
-              "code). Number formatting enters as a printer law (reading back gives the number rounded to the printed digits). Proofs are over exact reals, not "
+LEVEL_NOTE = ("The least-squares solvers behind class Adj are not part of this check (C01-C04): the network theorems are "
+              "stated for every IsLSSolution, which C01 proves each algorithm returns. The SAX state table of "
+              "the g3 parser, Model::update_init and the text layout of the result writer are exercised end-to-end only. "
+              "Azimuth coefficients are not derivatives (unreachable code). Number formatting enters as a printer law (reading back gives the number rounded to the printed digits). Proofs are over exact reals, not "
               "IEEE doubles.")
 TECHNIQUE = "Lean 4 proof (Mathlib: matrices, derivatives, list permutations) + model/implementation correspondence + end-to-end oracle"
